@@ -150,7 +150,7 @@ def run(ctx):
 CLAIM = {
     "text": "Decides the metadata pipeline of open_run: ChainMap lookup order equals the documented precedence reversed; validator and "
             "normalizer dominate the creation of the run and the bundler receives the normalizer's return value; scan_id is assigned once "
-            "from scan_id_source into the persistent metadata before the merge and the default source adds exactly one; per-call metadata has "
+            "from scan_id_source into the persistent metadata before the merge and the default source adds exactly one; RE.md is the very mapping the caller supplied whenever one is given (reaching definitions); per-call metadata has "
             "closed-world writers. Merge results beyond ChainMap semantics are not decided.",
     "technique": "table agreement (argument order vs documented precedence); dominance; def-use; constant folding of the default source",
 }
